@@ -322,6 +322,13 @@ def _isinstance(I, args, kw):
                 return True
             if t.dotted in ('numpy.ma.MaskedArray', 'numpy.ma.core.MaskedArray') and getattr(x, 'is_sarr', False) and x.mask is not None:
                 return True
+            if t.dotted in ('collections.abc.Iterable', 'collections.Iterable', 'typing.Iterable'):
+                if isinstance(x, (list, tuple, dict, str, bytes, set, frozenset, range)) or getattr(x, 'is_sarr', False) or hasattr(x, 'sym_len'):
+                    return True
+                if isinstance(x, E.Obj):
+                    # an instance of a repository class is iterable iff its class defines __iter__
+                    if x.cls is not None and I.class_getattr(x.cls, '__iter__') is not None:
+                        return True
             continue
         if isinstance(t, E.Opaque):
             raise Unsupported('isinstance against opaque type %s' % t.origin)
